@@ -1,6 +1,7 @@
 """Engine S: execute one simulated run and evaluate the oracles."""
 import hashlib
 import json
+import os
 
 from . import oracles, workload
 from .runner import Runner
@@ -48,6 +49,8 @@ def execute(prop, seed, scn=None, replay=None, full=False, tier="quick", max_ste
         final = r.final()
         events = r.k.events
         own = OWN[prop]
+        if os.environ.get("VERIF_DEBUG_ORACLES"):
+            own = os.environ["VERIF_DEBUG_ORACLES"].split(",")
         viol = oracles.evaluate(own, scn, events, final)
         inc = {}
         for v in oracles.evaluate(INCIDENTAL.get(prop, []), scn, events, final):
@@ -79,7 +82,8 @@ def execute(prop, seed, scn=None, replay=None, full=False, tier="quick", max_ste
 
             res["sample"] = {"seed": seed, "workload": scn, "status": status, "steps": r.k.steps,
                              "first_events": fmt_trace(events[:40], 40)}
-            res["trace"] = fmt_trace(events, 400)
+            res["trace"] = fmt_trace(events, 6000)
+            res["final"] = final
         elif viol:
             from .main import fmt_trace
 
